@@ -680,6 +680,35 @@ def c08(idx: Index, rep: Report, tier: str) -> None:
             rep.check(w is None, rule, f"{f.short}: `{m}` is not filled any more after the metric was re-keyed from it", f.loc(c), construct=f"{norm(c)[:70]}" + ("" if w is None else f" … then {norm(w[-1].ast)[:50]}"), detail="" if w is None else f"`{m}` still receives entries after updated_minimize_action_costs read it: the re-keyed MinimizeActionCosts misses the actions added later (with an empty map: every cost is lost)", function=f.qualname, path=path_text(w) if w else None)
     rep.count("rekeying_calls", n)
     rep.require_min(rule, "rekeying_calls", 5)
+    from ..rules2 import one_shot_local_consumed_twice, one_shot_stored_for_reuse
+
+    comp_funcs = [f for f in idx.all_funcs() if f.module.name.startswith("unified_planning.engines.compilers.") or f.module.name == "unified_planning.engines.results"]
+    k = one_shot_stored_for_reuse(rep, "C08.7 T19 back-conversion-reusable", comp_funcs)
+    rep.count("partials_and_fields", k)
+    rep.require_min("C08.7 T19 back-conversion-reusable", "partials_and_fields", 15)
+    one_shot_local_consumed_twice(rep, "C08.7 T19 one-shot-iterators-consumed-once", comp_funcs)
+    # the re-keyed cost table ranges over the actions that exist in the compiled problem: its keys come from the
+    # new-to-old map or from the compiled problem's own actions, never from a by-name lookup of an *original* action
+    # (a compiler may have dropped it, and the lookup raises)
+    rule8 = "C08.8 rekeyed-costs-range-over-compiled-actions"
+    k8 = 0
+    for f in comp_funcs:
+        tables = {norm(c.args[0]) for c in walk_no_nested(f.node) if isinstance(c, ast.Call) and call_name(c) == "MinimizeActionCosts" and c.args and isinstance(c.args[0], ast.Name)}
+        if not tables:
+            continue
+        cfg = cfg_of(f)
+        for nd in cfg.nodes:
+            a = nd.ast
+            if not (nd.kind == "stmt" and isinstance(a, ast.Assign) and isinstance(a.targets[0], ast.Subscript) and norm(a.targets[0].value) in tables):
+                continue
+            k8 += 1
+            key = a.targets[0].slice
+            lookups = [c for c in ast.walk(key) if isinstance(c, ast.Call) and call_name(c) == "action" and isinstance(c.func, ast.Attribute)]
+            guarded = any("has_action" in norm(t.ast) and o for t, o in guards_dominating(cfg, nd))
+            ok = not lookups or guarded
+            rep.check(ok, rule8, f"{f.short}: a key of the re-keyed cost table is an action known to be in the compiled problem", f.loc(a), construct=norm(a)[:90], detail="" if ok else f"`{norm(lookups[0])[:50]}` looks an original action up by name in the compiled problem: for an action the compilation dropped (its precondition became false) the lookup raises and compile() fails on a supported problem", function=f.qualname)
+    rep.count("cost_table_stores", k8)
+    rep.require_min(rule8, "cost_table_stores", 2)
 
 
 # ------------------------------------------------------------------------------------ C01 / C02 / C03 (simulator)
@@ -1141,7 +1170,176 @@ def c06(idx: Index, rep: Report, tier: str) -> None:
     rep.require_min(rule, "mirrored_effects", 3)
 
 
-EXTRA3 = {"C06": c06, "C04": c04, "C05": c05, "C01": c01, "C02": c02, "C03": c03, "C08": c08, "C35": c35, "C38": c38, "C36": c36, "C32": c32, "C33": c33, "C31": c31, "C17": c17, "C25": c25, "C20": c20, "C27": c27, "C28": c28}
+# ------------------------------------------------------------------------------------ C10
+def c10(idx: Index, rep: Report, tier: str) -> None:
+    from ..rules2 import one_shot_local_consumed_twice
+
+    rule = "C10.5 T19 one-shot-iterators-consumed-once"
+    mods = ("unified_planning.model.problem", "unified_planning.model.multi_agent.ma_problem", "unified_planning.model.htn.hierarchical_problem", "unified_planning.model.scheduling.scheduling_problem", "unified_planning.model.contingent.contingent_problem", "unified_planning.model.mixins.metrics")
+    n = one_shot_local_consumed_twice(rep, rule, [f for f in idx.all_funcs() if f.module.name in mods])
+    rep.count("one_shot_locals", n)
+    rep.require_min(rule, "one_shot_locals", 1)
+    # a visit of the kind computation may be skipped for an element already visited, never for one that merely
+    # shares an attribute (its name) with a visited element
+    rule2 = "C10.6 T24 visits-not-skipped-by-attribute"
+    k = 0
+    for f in [f for f in idx.all_funcs() if f.module.name in mods]:
+        cfg = None
+        for c in walk_no_nested(f.node):
+            if not (isinstance(c, ast.Call) and (call_name(c) or "").startswith(("update_problem_kind", "_update_problem_kind", "_update_kind")) and c.args and isinstance(c.args[0], ast.Name)):
+                continue
+            cfg = cfg or cfg_of(f)
+            nds = cfg.node_containing(c)
+            if not nds:
+                continue
+            k += 1
+            x = c.args[0].id
+            bad = None
+            for t, o in guards_dominating(cfg, nds[0]):
+                for cmp_ in ast.walk(t.ast):
+                    if isinstance(cmp_, ast.Compare) and len(cmp_.ops) == 1 and isinstance(cmp_.ops[0], (ast.In, ast.NotIn)) and isinstance(cmp_.left, ast.Attribute) and norm(cmp_.left.value) == x and isinstance(cmp_.comparators[0], ast.Name):
+                        bad = cmp_
+            rep.check(bad is None, rule2, f"{f.short}: the visit of `{x}` is not skipped on the strength of one of its attributes", f.loc(c), construct=norm(c)[:60] + ("" if bad is None else f" guarded by `{norm(bad)}`"), detail="" if bad is None else f"two different elements with the same `{norm(bad.left).split('.')[-1]}` (the same fluent name declared with another type by another agent) count as one: the features of the later one never reach the kind", function=f.qualname)
+    rep.count("kind_visits", k)
+
+
+# ------------------------------------------------------------------------------------ C11
+REFLEXIVE_FOLD = {"walk_lt": "FALSE", "walk_le": "TRUE", "walk_equals": "TRUE", "walk_iff": "TRUE", "walk_implies": "TRUE"}
+
+
+def c11(idx: Index, rep: Report, tier: str) -> None:
+    from .extra2 import guard_atoms
+
+    sim = idx.cls("model.walkers.simplifier.Simplifier")
+    # (a) identical operands: t < t is false, t <= t / t == t / t <-> t / t -> t are true
+    rule = "C11.5 T7 identical-operands-fold"
+    n = 0
+    for name, want in REFLEXIVE_FOLD.items():
+        m = sim.methods.get(name)
+        if m is None:
+            raise AnalysisError(f"{rule}: Simplifier.{name} vanished")
+        cfg = cfg_of(m)
+        for nd in cfg.nodes:
+            if nd.kind != "return" or not (isinstance(nd.ast.value, ast.Call) and call_name(nd.ast.value) in ("TRUE", "FALSE")):
+                continue
+            same = False
+            for t, o in guards_dominating(cfg, nd):
+                for a in guard_atoms(t.ast, o):
+                    parts = a.split(" == ")
+                    if len(parts) == 2 and all(p.isidentifier() for p in parts) and parts[0] != parts[1] and not any(p in ("None", "True", "False") for p in parts):
+                        same = True
+            if not same:
+                continue
+            n += 1
+            got = call_name(nd.ast.value)
+            rep.check(got == want, rule, f"{name}: identical operands fold to {want}", m.loc(nd.ast), construct=f"{name}: operands equal -> {got}", detail="" if got == want else f"`t {'<' if name == 'walk_lt' else '?'} t` is folded to {got}: a strict comparison of a term with itself is false (the fold was copied from a reflexive operator)", function=m.qualname)
+    rep.count("identical_operand_folds", n)
+    # (b) an equality eliminates a variable only if this quantifier binds it
+    rule_b = "C11.6 T2 elimination-only-of-bound-variables"
+    we = sim.methods.get("walk_exists")
+    if we is None:
+        raise AnalysisError(f"{rule_b}: Simplifier.walk_exists vanished")
+    cfg = cfg_of(we)
+    bound_sets = {norm(a.targets[0]) for a in walk_no_nested(we.node) if isinstance(a, ast.Assign) and isinstance(a.targets[0], ast.Name) and any(isinstance(c, ast.Call) and call_name(c) == "variables" for c in ast.walk(a.value))}
+    k = 0
+    for nd, c in cfg_nodes_with_call(cfg, "substitute"):
+        k += 1
+        def membership_facts(t, o):
+            """`x in S` facts implied by test t having outcome o"""
+            if isinstance(t, ast.UnaryOp) and isinstance(t.op, ast.Not):
+                return membership_facts(t.operand, not o)
+            if isinstance(t, ast.BoolOp) and ((isinstance(t.op, ast.And) and o) or (isinstance(t.op, ast.Or) and not o)):
+                out = set()
+                for v in t.values:
+                    out |= membership_facts(v, o)
+                return out
+            if isinstance(t, ast.Compare) and len(t.ops) == 1 and isinstance(t.ops[0], (ast.In, ast.NotIn)) and (isinstance(t.ops[0], ast.In) == o):
+                return {(norm(t.left), norm(t.comparators[0]))}
+            return set()
+
+        facts = set()
+        for t, o in guards_dominating(cfg, nd):
+            facts |= membership_facts(t.ast, o)
+        ok = any(".variable()" in l and r in bound_sets for l, r in facts)
+        rep.check(ok, rule_b, "walk_exists substitutes a variable away only if this Exists binds it", we.loc(c), construct=norm(c)[:70] + (" under `… .variable() in <bound variables>`" if ok else " without a test that the variable is bound here"), detail="" if ok else "an equality between terms of the enclosing scope is used to eliminate a variable this quantifier does not bind: the equality disappears and a free variable is replaced in the body (Exists x. (y == z and p(x, z)) becomes Exists x. p(x, y))", function=we.qualname)
+    rep.count("eliminations", k)
+    rep.require_min(rule_b, "eliminations", 1)
+
+
+# ------------------------------------------------------------------------------------ C12
+def dnf_conjunctions_kept(idx: Index, rep: Report, rule: str) -> None:
+    """a candidate conjunction is dropped only when the simplifier says it is false"""
+    wa = idx.func("model.walkers.dnf.Dnf.walk_and")
+    cfg = cfg_of(wa)
+    appends = {nd for nd, c in cfg_nodes_with_call(cfg, "append")}
+    n = 0
+    for l in cfg.nodes:
+        if l.kind != "for":
+            continue
+        if not any(nd.ast is not None and any(x is nd.ast for st in l.owner.body for x in ast.walk(st)) for nd in appends):
+            continue
+        n += 1
+
+        def skip(x, y, label):
+            # the only licensed way past the appends: the True edge of an `.is_false()` test
+            return x.kind == "test" and isinstance(x.ast, ast.Call) and call_name(x.ast) == "is_false" and (label is True or (isinstance(label, tuple) and True in label))
+
+        first = [s for s in cfg.g.successors(l) if cfg.g[l][s].get("label") is True or (isinstance(cfg.g[l][s].get("label"), tuple) and True in cfg.g[l][s].get("label"))]
+        w = None
+        for s_ in first:
+            if s_ not in appends:
+                w = w or cfg.path_avoiding(s_, l, appends, skip_edge=skip)
+        rep.check(w is None, rule, "Dnf.walk_and: every candidate conjunction is kept unless it simplifies to false", wa.loc(l.owner), construct=f"for {norm(l.owner.target)} in {norm(l.owner.iter)}: " + ("appended or proven false" if w is None else "an iteration can end without either"), detail="" if w is None else "a conjunction is discarded by a test of its own (not by the simplifier's verdict): a satisfiable disjunct disappears and the DNF can be false where the input is true", function=wa.qualname, path=path_text(w) if w else None)
+    rep.count("conjunction_loops", n)
+    rep.require_min(rule, "conjunction_loops", 1)
+
+
+def c12(idx: Index, rep: Report, tier: str) -> None:
+    dnf_conjunctions_kept(idx, rep, "C12.4 T2 conjunction-dropped-only-if-false")
+    # (b) every result of get_dnf_expression is the disjunction of the conjunctions (Or() of nothing is false)
+    rule_b = "C12.5 result-is-the-disjunction"
+    gd = idx.func("model.walkers.dnf.Dnf.get_dnf_expression")
+    rets = [r for r in walk_no_nested(gd.node) if isinstance(r, ast.Return) and r.value is not None]
+    for r in rets:
+        v = r.value
+        ok = isinstance(v, ast.Call) and call_name(v) == "Or" and len(v.args) == 1 and isinstance(v.args[0], (ast.GeneratorExp, ast.ListComp)) and isinstance(v.args[0].elt, ast.Call) and call_name(v.args[0].elt) == "And"
+        rep.check(ok, rule_b, "get_dnf_expression returns Or(And(c) for c in conjunctions) on every path", gd.loc(r), construct=norm(v)[:80], detail="" if ok else "a special case returns something else: for an unsatisfiable input there is no conjunction, And() of nothing is true where Or() of nothing is false", function=gd.qualname)
+
+
+# ------------------------------------------------------------------------------------ C07
+def sticky_flags(idx: Index, rep: Report, rule: str, funcs) -> int:
+    """A flag that is raised inside a loop and tested inside the same loop to skip the rest of an iteration describes
+    *that* iteration: it has to be lowered again inside the loop. If its only `= False` is outside, the first
+    iteration that raises it makes every later iteration skip as well."""
+    n = 0
+    for f in funcs:
+        for l in [x for x in ast.walk(f.node) if isinstance(x, (ast.For, ast.While))]:
+            body_nodes = [x for st in l.body for x in ast.walk(st)]
+            raised = {norm(a.targets[0]) for a in body_nodes if isinstance(a, ast.Assign) and isinstance(a.targets[0], ast.Name) and isinstance(a.value, ast.Constant) and a.value.value is True}
+            for x in sorted(raised):
+                tested = [t for t in body_nodes if isinstance(t, ast.If) and ((isinstance(t.test, ast.Name) and t.test.id == x) or (isinstance(t.test, ast.UnaryOp) and isinstance(t.test.operand, ast.Name) and t.test.operand.id == x))]
+                skipping = [t for t in tested if any(isinstance(y, (ast.Continue, ast.Break)) for st in (t.body if isinstance(t.test, ast.Name) else t.orelse) for y in ast.walk(st)) or isinstance(t.test, ast.UnaryOp)]
+                if not skipping:
+                    continue
+                # innermost loop that contains both the raising and the test
+                inner = [m for m in body_nodes if isinstance(m, (ast.For, ast.While)) and any(t is y for t in skipping for st in m.body for y in ast.walk(st)) and any(isinstance(a, ast.Assign) and norm(a.targets[0]) == x and isinstance(a.value, ast.Constant) and a.value.value is True for st in m.body for a in ast.walk(st))]
+                if inner:
+                    continue  # judged at the inner loop
+                n += 1
+                lowered_inside = any(isinstance(a, ast.Assign) and isinstance(a.targets[0], ast.Name) and a.targets[0].id == x and isinstance(a.value, ast.Constant) and a.value.value is False for a in body_nodes)
+                rep.check(lowered_inside, rule, f"{f.short}: the per-iteration flag `{x}` is lowered inside the loop that tests it", f.loc(l), construct=f"for/while at line {l.lineno}: `{x}` raised and tested in the loop, " + ("reset in the loop" if lowered_inside else "initialised only outside"), detail="" if lowered_inside else f"once one iteration raises `{x}` every later iteration is skipped as well: the variants / elements that come after the first rejected one are lost", function=f.qualname)
+    return n
+
+
+def c07(idx: Index, rep: Report, tier: str) -> None:
+    rule = "C07.6 per-iteration-flags-reset"
+    n = sticky_flags(idx, rep, rule, [f for f in idx.all_funcs() if f.module.name.startswith("unified_planning.engines.compilers.")])
+    rep.count("per_iteration_flags", n)
+    rep.require_min(rule, "per_iteration_flags", 2)
+    dnf_conjunctions_kept(idx, rep, "C07.7 T2 conjunction-dropped-only-if-false")
+
+
+EXTRA3 = {"C07": c07, "C12": c12, "C11": c11, "C10": c10, "C06": c06, "C04": c04, "C05": c05, "C01": c01, "C02": c02, "C03": c03, "C08": c08, "C35": c35, "C38": c38, "C36": c36, "C32": c32, "C33": c33, "C31": c31, "C17": c17, "C25": c25, "C20": c20, "C27": c27, "C28": c28}
 
 
 def run_extra3(prop: str, idx: Index, rep: Report, tier: str) -> None:
